@@ -66,6 +66,10 @@ ENGINE_PROGS = [
     # are dispatched on the descriptors the restarted engine has just been given)
     "main=listen,connect,waitn:2,setflag:g,stop,start,listen,connect,waitn:4,send:0:5,send:4:3,waitflag:h,stop ; a=waitflag:g,send:1:3,send:2:3,close:1,setflag:h",
     "main=listen,peer:1,connect,waitn:3,stop,start,listen,peer:2,connect,waitn:6,psend:2:4,send:0:6,close:0,stop,start,listen,connect,waitn:8,stop",
+    # (both engines: a datagram / bytes ARRIVE on the second cycle's client socket - its descriptor number is a recycled one)
+    "main=listen,connect,send:0:3,waitn:2,stop,start,listen,connect,send:0:3,waitn:4,send:4:2,send:0:2,spin:40,stop",
+    # address queries (readers of the session map on application threads) against stop()'s clearing of the map
+    "main=listen,connect,send:0:3,waitn:2,setflag:g,addr:1,stop ; a=waitflag:g," + ",".join(["addr:1", "addr:2"] * 8) + " ; b=waitflag:g," + ",".join(["addr:2", "addr:1"] * 8),
     "main=listen,peer:1,waitn:1,cbdrop,psend:1:4",
     "main=listen,peer:1,peer:2,waitn:2,cbdrop,pclose:1",
     "main=listen,connect,waitn:1,setflag:g,drop ; a=waitflag:g,send:1:5,close:2,drop ; b=waitflag:g,connect,drop",
@@ -148,7 +152,12 @@ def engine_part(ck, thorough):
     tc.run_cases(ck, lines, "engine_random", engine_nontrivial, **kw)
     tc.run_cases(ck, lines[::3], "engine_asan", engine_nontrivial, variant=".asan", **kw)
     tc.run_cases(ck, lines[1::3], "engine_tsan", engine_nontrivial, variant=".tsan", **kw)
-    for j, (proto, pi) in enumerate([("tcp", 1), ("udp", 8), ("tcp", 13)] if not thorough else [("tcp", 1), ("udp", 8), ("tcp", 13), ("tcp", 2), ("tcpb", 0), ("udp", 3), ("tcp", 8), ("udp", 10), ("tcp", 11), ("tcp", 12), ("tcp", 4)]):
+    # (the address-query program more often under TSan: a query has to fall between the I/O thread's last lock operation and
+    # stop()'s join for an unlocked access of the teardown to be unordered with it - about one schedule in three)
+    alines = ["%s | %s | %s %d" % (proto, ENGINE_PROGS[6], "random" if k % 3 else "randomt", ck.seed * 7013 + k)
+              for proto in ("tcp", "udp", "tcpb") for k in range((60 if thorough else 16) if proto == "tcp" else (20 if thorough else 6))]
+    tc.run_cases(ck, alines, "engine_tsan_addr", engine_nontrivial, variant=".tsan", **kw)
+    for j, (proto, pi) in enumerate([("tcp", 1), ("udp", 10), ("tcp", 15)] if not thorough else [("tcp", 1), ("udp", 10), ("tcp", 15), ("tcp", 2), ("tcpb", 0), ("udp", 3), ("tcp", 10), ("udp", 12), ("tcp", 13), ("tcp", 14), ("tcp", 4), ("udp", 5), ("tcp", 6)]):
         tc.run_dfs(ck, "%s | %s" % (proto, ENGINE_PROGS[pi]), 1 if not thorough else 2, 5000 if thorough else 500, "engine_dfs%d" % j, engine_nontrivial, **kw)
 
 
